@@ -29,6 +29,24 @@ def binners():
     return list(B.ALL)
 
 
+def exact():
+    from contracts import exact as E
+    return list(E.EXACT_CONTRACTS)
+
+
+def c11():
+    from contracts import exact as E
+    return list(E.C11_CONTRACTS)
+
+
+def bounds():
+    from contracts import objectives as O
+    return list(O.BOUND_CONTRACTS)
+
+
+CBLDM = [("contracts.exact", "cbldm")]
+
+
 def relational():
     from contracts import relational as R
     return list(R.ALL)
@@ -79,7 +97,7 @@ def replay_and_crosscheck(rep, prop, res, obs):
     rep.extra["traces_validated_against_impl"] = rep.extra.get("traces_validated_against_impl", 0) + len(res.xchecks) - bad
 
 
-def run_contracts(rep, prop, crefs, level="quick", with_lemmas=False, also=()):
+def run_contracts(rep, prop, crefs, level="quick", with_lemmas=False, also=(), only_tagged=False):
     """verify every contract and add the obligations that carry `prop`:
        every invariant / precondition / exception obligation of the function (the proof of any postcondition rests on them) and the
        postconditions and step assertions tagged with this property (or untagged).  A failing obligation tagged with ANOTHER property
@@ -91,7 +109,9 @@ def run_contracts(rep, prop, crefs, level="quick", with_lemmas=False, also=()):
         for ob in obs:
             m = _TAG.search(ob.id)
             foreign = m is not None and m.group(1) != prop and m.group(1) not in also
-            if foreign and ("/post/" in ob.id or "/call:" in ob.id or "/raise/" in ob.id):
+            if foreign and ("/post/" in ob.id or "/call:" in ob.id or "/raise/" in ob.id or "/C07:" in ob.id):
+                continue
+            if only_tagged and (m is None or foreign) and ob.status != UNDECIDED:
                 continue
             if foreign and ob.status == REFUTED:
                 ob.status = UNDECIDED
